@@ -16,6 +16,9 @@ type zzFragReader struct {
 	// readsAfter counts Read calls made after `mark` bytes were consumed
 	mark       int
 	readsAfter int
+	// eofWithData: the Read that hands out the last byte of the stream also reports io.EOF (allowed
+	// by the io.Reader contract)
+	eofWithData bool
 }
 
 func (r *zzFragReader) Read(p []byte) (int, error) {
@@ -42,6 +45,9 @@ func (r *zzFragReader) Read(p []byte) (int, error) {
 	}
 	copy(p, r.b[r.off:r.off+n])
 	r.off += n
+	if r.eofWithData && r.off == len(r.b) {
+		return n, io.EOF
+	}
 	return n, nil
 }
 
@@ -96,7 +102,7 @@ func zzC05_stream() {
 	if cut > 0 && budget > vParam("SHORTCUT", 1) {
 		budget = vParam("SHORTCUT", 1)
 	}
-	r := &zzFragReader{b: stream, budget: budget, mark: 1 << 30}
+	r := &zzFragReader{b: stream, budget: budget, mark: 1 << 30, eofWithData: vParam("EOFDATA", 1) == 1 && zzFlag("eofWithLastBytes")}
 	whole := m
 	if cut > 0 {
 		whole = m - 1
